@@ -135,6 +135,39 @@ def _arm_terms(fi, body, kind, subj, out, base_env, self_name):
                 continue
             else:
                 extra.append((text, pol))
+        if ops and len(ops) > 1 and kind == "UnaryOp":
+            # one arm for several operators (`op in ("log2", "log10")`): read once per operator, with the conditional
+            # expressions on the operator folded
+            for op1 in sorted(ops):
+                class _F(ast.NodeTransformer):
+                    def visit_IfExp(self, n):
+                        self.generic_visit(n)
+                        t_ = op_test(n.test)
+                        if t_ and (t_[0] == "op" or t_[0].endswith(".op")):
+                            hit = op1 in t_[1]
+                            hit = (not hit) if t_[2] else hit
+                            return n.body if hit else n.orelse
+                        return n
+                from ..astutil import clone as _clone
+                env1 = dict(base_env)
+                try:
+                    env1[self_name] = al.FUN(op1, U)
+                except KeyError:
+                    continue
+                root = fi.node.args.args[0].arg
+                if root != subj and root not in env1:
+                    env1[root] = al.A("ROOT_OF_THE_WHOLE_TREE")
+                tr1 = Tr(env1, {})
+                for nm, val in assigns:
+                    if nm in env1 or nm in ("op", "node_id", "left_id", "right_id", "operand_id", "n", "left", "right", "operand", "d_left", "d_right", "d_operand") or isinstance(val, ast.Tuple):
+                        continue
+                    tr1.env[nm] = _F().visit(_clone(val))
+                try:
+                    out[f"UnaryOp {op1}"] = tr1.t(_F().visit(_clone(res)))
+                    out[f"UnaryOp {op1}@line"] = node.lineno
+                except Untranslatable:
+                    out["@unary-default-return"] = node.lineno      # present but not readable: coverage is not decided
+            continue
         if not ops or len(ops) != 1:
             if ops is None and kind == "UnaryOp" and any((lambda t: t and (t[0] == "op" or t[0].endswith(".op")))(op_test(ast.parse(text, mode="eval").body)) for text, _pol in conds):
                 # a value is returned on the path where every listed operator was ruled out: the remaining operators
@@ -209,6 +242,33 @@ def reference_terms():
     return ref, U, DU
 
 
+def _kind_handled(prog, walker, kind, registered, disp=None):
+    """'arm' / 'registered' / 'helper' when the differentiator has a place for node kind ``kind``: an arm of the walker's own
+    dispatch chain, a registered rule, or an isinstance test on the kind (or a superclass) anywhere in the walker and the
+    module helpers it calls; None when the kind is not mentioned at all (then gradient() reaches the raising default)."""
+    from .common import helper_closure
+    if kind in registered:
+        return "registered"
+    try:
+        d = disp or dispatcher(prog, walker)
+        if d.handler(prog, kind) is not None:
+            return "arm"
+    except AnalysisError:
+        pass
+    for g in helper_closure(prog, walker, depth=2):
+        aliases = prog.func_aliases(g)
+        for n in ast.walk(g.node):
+            if isinstance(n, ast.Call) and dotted(n.func) == "isinstance" and len(n.args) == 2:
+                ks = n.args[1].elts if isinstance(n.args[1], ast.Tuple) else [n.args[1]]
+                for k in ks:
+                    nm = dotted(k)
+                    nm = aliases.get(nm, nm) if nm else nm
+                    nm = nm.split(".")[-1] if nm else nm
+                    if nm and nm in prog.classes and (nm == kind or prog.is_subclass(kind, nm)) and nm != "Expression":
+                        return "helper"
+    return None
+
+
 def check(prog, rep):
     al.selfcheck()
     ref, U, DU = reference_terms()
@@ -273,7 +333,7 @@ def check(prog, rep):
         for k in ("Constant", "Parameter"):
             a = exact_arm(d, prog, k)
             if a is None or k not in a.kinds:
-                rep.ob("R02.3", f"{fi.name}[{k}]", False, f"no arm of {fi.name} handles {k} leaves", loc=fi.loc, detail="leaf")
+                rep.undecided(f"{fi.name}[{k}]: no arm of the walker's own dispatch chain handles {k} leaves (handled elsewhere?)")
                 continue
             vals = [const_of(v) for v in results_of(a.body)]
             if not vals or any(v is None for v in vals):
@@ -284,7 +344,7 @@ def check(prog, rep):
         a = exact_arm(d, prog, "Variable")
         wrt = fi.node.args.args[1].arg if len(fi.node.args.args) > 1 else "wrt"
         if a is None:
-            rep.ob("R02.3", f"{fi.name}[Variable]", False, f"no arm of {fi.name} handles Variable leaves", loc=fi.loc, detail="leaf")
+            rep.undecided(f"{fi.name}[Variable]: no arm of the walker's own dispatch chain handles Variable leaves (handled elsewhere?)")
         else:
             picks = []      # (test, value if true, value if false)
             for v in results_of(a.body):
@@ -355,8 +415,9 @@ def check(prog, rep):
         if vector_valued:
             rep.ob("R02.4", k, True, f"{k} is vector-valued (not a scalar expression); its sum node carries the rule", loc=ci.loc, detail="rule-exists", trivial=True)
             continue
-        has = k in registered or d0.handler(prog, k) is not None
-        rep.ob("R02.4", k, has, "has a gradient rule" + (" (registered)" if k in registered else " (walker arm)") if has else f"{k} has neither a walker arm nor a registered gradient rule: gradient() raises for an expression the API can build", loc=ci.loc, detail="rule-exists")
+        how = _kind_handled(prog, prog.func(WALKERS[0]), k, registered, d0)
+        has = how is not None
+        rep.ob("R02.4", k, has, f"has a gradient rule ({how})" if has else f"{k} has neither a walker arm nor a registered gradient rule: gradient() raises for an expression the API can build", loc=ci.loc, detail="rule-exists")
 
     rep.section(_simplifiers, prog, rep)
     rep.section(_functions_table, prog, rep)
@@ -594,7 +655,7 @@ def _registered_rules(prog, rep, registered):
                 emitted.add("UnaryOp")
     d0 = dispatcher(prog, prog.func(WALKERS[0]))
     for k in sorted(emitted):
-        has = k in rules or d0.handler(prog, k) is not None
+        has = _kind_handled(prog, prog.func(WALKERS[0]), k, set(rules), d0) is not None
         rep.ob("R02.6", k, has, f"{k} nodes emitted by rules can themselves be differentiated (needed for Hessians)" if has else f"rules emit {k} nodes, for which no gradient rule exists: second derivatives raise", loc=None, detail="closure")
 
 
